@@ -43,6 +43,35 @@ fn real_bytes<'a>(pat: &str, k: usize, s: &'a [u8]) -> Option<(&'a [u8], &'a [u8
     p.parse(s).into_result().ok()
 }
 
+/// the same grammar with the regex in a value-eliding position (Check mode inside parse): the rest after the match; and
+/// whether check() accepts (C04: both must agree with the value-building formulation)
+fn real_str_elided<'a>(pat: &str, k: usize, s: &'a str) -> (Option<&'a str>, bool) {
+    let p = any::<&str, extra::Err<Simple<char>>>()
+        .repeated()
+        .exactly(k)
+        .ignore_then(chumsky::regex::regex(pat).ignored())
+        .ignore_then(any().repeated().to_slice());
+    let q = any::<&str, extra::Err<Simple<char>>>()
+        .repeated()
+        .exactly(k)
+        .ignore_then(chumsky::regex::regex(pat))
+        .then(any().repeated().to_slice());
+    (p.parse(s).into_result().ok(), q.check(s).into_result().is_ok())
+}
+fn real_bytes_elided<'a>(pat: &str, k: usize, s: &'a [u8]) -> (Option<&'a [u8]>, bool) {
+    let p = any::<&[u8], extra::Err<Simple<u8>>>()
+        .repeated()
+        .exactly(k)
+        .ignore_then(chumsky::regex::regex(pat).ignored())
+        .ignore_then(any().repeated().to_slice());
+    let q = any::<&[u8], extra::Err<Simple<u8>>>()
+        .repeated()
+        .exactly(k)
+        .ignore_then(chumsky::regex::regex(pat))
+        .then(any().repeated().to_slice());
+    (p.parse(s).into_result().ok(), q.check(s).into_result().is_ok())
+}
+
 pub fn run(max_len: usize) -> J {
     let alphabet = ['a', 'b', ' ', '\u{e9}', '0', '\n', '.'];
     let all = strings(&alphabet, max_len);
@@ -57,6 +86,11 @@ pub fn run(max_len: usize) -> J {
                 let oracle = re.find(ReInput::new(s.as_bytes()).anchored(Anchored::Yes).range(*off..)).map(|m| (&s[m.start()..m.end()], &s[m.end()..]));
                 let real = std::panic::catch_unwind(|| real_str(pat, k, s)).unwrap_or(Some(("<panic>", "")));
                 checked += 1;
+                let elided = std::panic::catch_unwind(|| real_str_elided(pat, k, s)).unwrap_or((Some("<panic>"), false));
+                if elided != (oracle.map(|x| x.1), oracle.is_some()) && bad.len() < 10 {
+                    bad.push(json!({"pattern": pat, "input": s, "kind": "str, regex(p).ignored() / check()", "position": k, "chumsky": format!("(rest, check accepts) = {elided:?}"),
+                                    "anchored_search": format!("{:?}", (oracle.map(|x| x.1), oracle.is_some()))}));
+                }
                 if real != oracle {
                     if bad.len() < 10 {
                         bad.push(json!({"pattern": pat, "input": s, "kind": "str", "position": k, "chumsky": format!("{real:?}"), "anchored_search": format!("{oracle:?}")}));
@@ -69,6 +103,11 @@ pub fn run(max_len: usize) -> J {
                     let oracle_b = re.find(ReInput::new(b).anchored(Anchored::Yes).range(*off..)).map(|m| (&b[m.start()..m.end()], &b[m.end()..]));
                     let real_b = std::panic::catch_unwind(|| real_bytes(pat, k, b)).unwrap_or(Some((b"<panic>", b"")));
                     checked += 1;
+                    let elided_b = std::panic::catch_unwind(|| real_bytes_elided(pat, k, b)).unwrap_or((Some(b"<panic>"), false));
+                    if elided_b != (oracle_b.map(|x| x.1), oracle_b.is_some()) && bad.len() < 10 {
+                        bad.push(json!({"pattern": pat, "input": s, "kind": "bytes, regex(p).ignored() / check()", "position": k, "chumsky": format!("(rest, check accepts) = {elided_b:?}"),
+                                        "anchored_search": format!("{:?}", (oracle_b.map(|x| x.1), oracle_b.is_some()))}));
+                    }
                     if real_b != oracle_b && bad.len() < 10 {
                         bad.push(json!({"pattern": pat, "input": s, "kind": "bytes", "position": k, "chumsky": format!("{real_b:?}"), "anchored_search": format!("{oracle_b:?}")}));
                     }
